@@ -515,4 +515,29 @@ def toyHooks : Hooks Nat Nat Unit where
 theorem toyHooks_frame : Frame toyHooks := by
   constructor <;> intro s s' h <;> cases h <;> exact ⟨rfl, rfl, rfl, rfl⟩
 
+/-- a new instance: the given configuration and debug flag, mode serial, 4 workers, no task, an empty population, no best / worst agent, cycle 1
+and empty error lists; `p` is the subclass's private state, which the base constructor does not touch -/
+def freshSelf {R σ τ : Type} (config : Option (StopCfg R)) (debug : Bool) (p : σ) : Self R σ τ where
+  config := config
+  debug := debug
+  mode := Mode.serial
+  workers := 4
+  task := none
+  population := []
+  best_agent := none
+  worst_agent := none
+  current_cycle := 1
+  errors := []
+  error_diffs := []
+  priv := p
+
+/-- **`OptimizationAbstract.__init__`** as the source reads now builds `freshSelf`: nothing of whatever the attributes held before survives -/
+theorem init_fresh {R σ τ : Type} (ar : Arith R) (H : Hooks R σ τ) (config : Option (StopCfg R)) (debug : Bool) (self : Self R σ τ) :
+    Src.optimizer_init ar H config debug self = .ok ((), freshSelf config debug self.priv) := rfl
+
+/-- two instances built with the same configuration and flag differ at most in the subclass's private state -/
+theorem init_same {R σ τ : Type} (ar : Arith R) (H : Hooks R σ τ) (config : Option (StopCfg R)) (debug : Bool) (s1 s2 : Self R σ τ) (h : s1.priv = s2.priv) :
+    Src.optimizer_init ar H config debug s1 = Src.optimizer_init ar H config debug s2 := by
+  rw [init_fresh, init_fresh, h]
+
 end R00
